@@ -137,8 +137,15 @@ pub async fn send_appointment(
                 r.start_block,
                 r.signature.clone(),
             );
+            // The signature may not even be decodable, in which case there is nothing to recover (nor to build a proof from).
             let recovered_id = TowerId(
-                cryptography::recover_pk(&receipt.to_vec(), &receipt.signature().unwrap()).unwrap(),
+                cryptography::recover_pk(&receipt.to_vec(), &receipt.signature().unwrap()).map_err(
+                    |e| {
+                        RequestError::DeserializeError(format!(
+                            "Unexpected response body. Cannot recover the signer of the appointment receipt: {e}"
+                        ))
+                    },
+                )?,
             );
             if recovered_id == tower_id {
                 Ok((r, receipt))
